@@ -329,3 +329,19 @@ func (w *World) sortedHeap() []*Term {
 	}
 	return out
 }
+
+var srcLines = map[string][]string{}
+
+// sourceLine returns line n (1-based) of a source file of the working tree.
+func (w *World) sourceLine(file string, n int) string {
+	ls, ok := srcLines[file]
+	if !ok {
+		b, _ := os.ReadFile(file)
+		ls = strings.Split(string(b), "\n")
+		srcLines[file] = ls
+	}
+	if n < 1 || n > len(ls) {
+		return ""
+	}
+	return ls[n-1]
+}
